@@ -245,6 +245,14 @@ def run_one(seed, preset=None, tier="quick", want_case=False):
         respelt = 0
     canonical = "\n".join(chunks)
     modes = cfgt.shuffle(["string", "file", "files", "dir"])[: cfgt.rint(2, 4)]
+    # the files are written in another encoding than UTF-8 when the text allows it (the documented `sdl_file_encoding`)
+    file_encoding = "utf-8"
+    if tape.sub("enc").chance(30):
+        try:
+            canonical.encode("latin-1")
+            file_encoding = "latin-1"
+        except UnicodeEncodeError:
+            pass
     tmp = tempfile.mkdtemp(prefix="simv_c11_")
     viol = []
     out = Out()
@@ -259,7 +267,7 @@ def run_one(seed, preset=None, tier="quick", want_case=False):
                 supplies[mode] = "\n".join(cfgt.shuffle(chunks)) if cfgt.chance(50) else canonical
             elif mode == "file":
                 p = os.path.join(tmp, "one_%d.graphql" % mi)
-                with open(p, "w", encoding="utf-8", newline="") as f:
+                with open(p, "w", encoding=file_encoding, newline="") as f:
                     f.write("\n".join(ft.shuffle(chunks)))
                 supplies[mode] = p
             else:
@@ -281,7 +289,7 @@ def run_one(seed, preset=None, tier="quick", want_case=False):
                         # the same file name in several sub-directories is ordinary practice
                         p = os.path.join(sub, "schema" + ext)
                         same_names[0] += 1
-                    with open(p, "w", encoding="utf-8", newline="") as f:
+                    with open(p, "w", encoding=file_encoding, newline="") as f:
                         f.write("\n".join(b) + (ft.choose(["\n", "", "\n# end of file, no newline"]) if respelt else "\n"))
                     paths.append(p)
                 layout_desc[mode] = [os.path.relpath(p, root) for p in paths]
@@ -320,7 +328,7 @@ def run_one(seed, preset=None, tier="quick", want_case=False):
                 if td.kind == "SCALAR" and td.custom:
                     Scalar(td.name, schema_name=name)(XStr() if td.custom == "xstr" else XNum())
             await asyncio.sleep(0)
-            return await create_engine(supplies[mode], schema_name=name, sdl_file_encoding="utf-8")
+            return await create_engine(supplies[mode], schema_name=name, sdl_file_encoding=file_encoding)
 
         async def ask(mode, engine, label, text):
             await loop.point(("ask", mode, label))
@@ -523,7 +531,7 @@ def run_one(seed, preset=None, tier="quick", want_case=False):
     r["metrics"] = {"engines": len(modes), "extensions": len(exts), "types": len(schema.types), "custom_directives": len(schema.directives),
                     "files_written": sum(len(v) for v in layout_desc.values())}
     r["probes"] = {"mode_" + m: 1 for m in modes}
-    r["probes"].update({"sdl_respelt": respelt, "schema_nonIntrospectable": int(hidden_schema), "hidden_field": int(any(getattr(f, "hidden", False) for td in schema.types.values() if td.kind == "OBJECT" for f in td.fields.values())),
+    r["probes"].update({"sdl_files_in_latin1": int(file_encoding == "latin-1"), "sdl_respelt": respelt, "schema_nonIntrospectable": int(hidden_schema), "hidden_field": int(any(getattr(f, "hidden", False) for td in schema.types.values() if td.kind == "OBJECT" for f in td.fields.values())),
                         "extend_schema": int(any(e.kind == "SCHEMA" for e in exts)), "extend_union": int(any(e.kind == "UNION" for e in exts)),
                         "extend_enum": int(any(e.kind == "ENUM" for e in exts)), "extend_input": int(any(e.kind == "INPUT_OBJECT" for e in exts)),
                         "extend_interface": int(any(e.kind == "INTERFACE" for e in exts)), "extend_object": int(any(e.kind == "OBJECT" for e in exts)),
